@@ -172,6 +172,18 @@ impl FsState {
         }
     }
 
+    /// The file system as it is after a crash under `cut`: every file truncated to what survives.
+    pub fn after_cut(&self, cut: &dyn Fn(&str, &FileState) -> usize) -> FsState {
+        let mut out = self.clone();
+        for (p, f) in out.files.iter_mut() {
+            let n = cut(p, f).min(f.data.len());
+            f.data.truncate(n);
+            f.synced = f.synced.min(n);
+        }
+        out.last_write = None;
+        out
+    }
+
     /// Write the image below `dst`. `cut(path, file)` decides how many bytes of each file survive.
     pub fn materialise(&self, dst: &Path, cut: &dyn Fn(&str, &FileState) -> usize) -> std::io::Result<()> {
         rm_rf(dst);
@@ -533,6 +545,8 @@ pub fn check_generation(
     let mut fs = base_fs.clone();
     let mut next_point = 0usize;
     let mut candidates = Vec::new();
+    let mut torn_candidates: Vec<(usize, usize, FsState)> = Vec::new();
+    let mut wal_torn_candidates: Vec<(usize, usize, FsState)> = Vec::new();
     let mut pi = 0usize;
     let n = run.trace.len();
     let fail = |class: &str, msg: String, aux: serde_json::Value| Failure { class: class.into(), step: usize::MAX, msg, aux };
@@ -593,12 +607,16 @@ pub fn check_generation(
             match open_and_scan(ctx.cfg, &img.join("db"), ctx.rt, ctx.judge == Judge::Reopen) {
                 Opened::Panicked(m) => return Err(fail("recovery-panic", format!("{what}: opening the image panicked: {m}"), aux)),
                 Opened::OpenFailed(e) if ctx.judge == Judge::Reopen => {
+                    if let Ok(keep) = std::env::var("VERIF_KEEP_IMG") {
+                        let _ = fs.materialise(std::path::Path::new(&keep), &cut);
+                    }
                     return Err(fail("image-not-openable", format!("{what}: {e}"), aux));
                 }
                 Opened::OpenFailed(e) => {
                     // reported by C07's crash stream; here it only means that nothing can be judged on this image
                     ctx.stats.inc("images_not_openable");
-                    if std::env::var("VERIF_CRASH_OPEN_FAIL_IS_FAILURE").is_ok() || ctx.judge == Judge::Prefix && false {
+                    // a store that cannot be opened has recovered neither the acknowledged commits (C02) nor any prefix (C03)
+                    if !known_f03 || std::env::var("VERIF_CRASH_OPEN_FAIL_IS_FAILURE").is_ok() {
                         return Err(fail("image-not-openable", format!("{what}: {e}"), aux));
                     }
                     ctx.stats.add("n_images_not_openable", 1);
@@ -666,6 +684,18 @@ pub fn check_generation(
                     if let Some(h) = h {
                         if cm == CrashModel::Process && candidates.len() < 64 {
                             candidates.push((p, h, fs.clone()));
+                        } else if cm != CrashModel::Process && fs.files.iter().any(|(path, f)| cut(path, f) < f.data.len()) {
+                            // a power-loss image that really lost bytes: the next generation continues on it; images
+                            // whose WAL ends inside a record (header complete, payload cut) are preferred
+                            let wal_payload_torn = fs.files.iter().any(|(path, f)| {
+                                let n = cut(path, f);
+                                path.contains("wal/") && n < f.data.len() && n > f.synced + 7
+                            });
+                            if wal_payload_torn && wal_torn_candidates.len() < 64 {
+                                wal_torn_candidates.push((p, h, fs.after_cut(&cut)));
+                            } else if torn_candidates.len() < 64 {
+                                torn_candidates.push((p, h, fs.after_cut(&cut)));
+                            }
                         }
                     }
                 }
@@ -673,6 +703,16 @@ pub fn check_generation(
         }
     }
     rm_rf(&img);
+    // the caller picks by index: put one image that lost bytes (chosen by salt) at a fixed place
+    if !wal_torn_candidates.is_empty() && (salt % 4 != 0 || torn_candidates.is_empty()) {
+        let t = wal_torn_candidates.swap_remove(salt as usize % wal_torn_candidates.len());
+        candidates.push(t);
+        ctx.stats.inc("torn_wal_image_offered_for_next_generation");
+    } else if !torn_candidates.is_empty() {
+        let t = torn_candidates.swap_remove(salt as usize % torn_candidates.len());
+        candidates.push(t);
+        ctx.stats.inc("torn_image_offered_for_next_generation");
+    }
     Ok(candidates)
 }
 
@@ -758,7 +798,8 @@ pub fn run_crash_case(case: &CrashCase, dir: &Path, judge: Judge) -> CaseResult 
         Ok(cands) => {
             // second generation: continue on a recovered image, crash again
             if !case.work2.is_empty() && !cands.is_empty() {
-                let pick = [case.salt as usize % cands.len(), (case.salt as usize / 7 + cands.len() / 2) % cands.len()];
+                // second pick: the last candidate, which is a power-loss image that lost bytes whenever one exists
+                let pick = [case.salt as usize % cands.len(), cands.len() - 1];
                 let states1 = states_of(&empty, &run.commits);
                 for (gi, ci) in pick.iter().enumerate() {
                     if gi == 1 && pick[0] == pick[1] {
@@ -775,7 +816,28 @@ pub fn run_crash_case(case: &CrashCase, dir: &Path, judge: Judge) -> CaseResult 
                     if fs2.materialise(&root2, &|_p, f| f.data.len()).is_err() {
                         continue;
                     }
-                    let case2 = Case { cfg: case.work.cfg.clone(), pool: case.work.pool.clone(), steps: case.work2.clone() };
+                    let mut steps2 = case.work2.clone();
+                    if gi == 1 {
+                        // continuing on an image that lost bytes: commit, rotate, commit, and no flush in between, so that a
+                        // crash can fall between the rotation and the flush of the rotated memtable
+                        if let Some(first_txn) = steps2.iter().position(|s| matches!(s, Step::Txn { .. })) {
+                            // a second, different transaction for the next segment (same keys, other values)
+                            let mut t = steps2[first_txn].clone();
+                            if let Step::Txn { ws, .. } = &mut t {
+                                for w in ws.iter_mut() {
+                                    w.op = match w.op {
+                                        WOp::Set(v) | WOp::Replace(v) => WOp::Set(VSpec { cls: 10, raw: v.raw ^ 0x55, tag: v.tag ^ 0x00c0_ffee }),
+                                        WOp::Delete | WOp::SoftDelete => WOp::Set(VSpec { cls: 10, raw: 7, tag: 0x00c0_ffee }),
+                                    };
+                                }
+                            }
+                            steps2.retain(|s| !matches!(s, Step::FlushOldest | Step::FlushAll | Step::Compact { .. } | Step::Reopen));
+                            let at = steps2.iter().position(|s| matches!(s, Step::Txn { .. })).unwrap_or(0) + 1;
+                            steps2.insert(at, Step::Rotate);
+                            steps2.insert(at + 1, t);
+                        }
+                    }
+                    let case2 = Case { cfg: case.work.cfg.clone(), pool: case.work.pool.clone(), steps: steps2 };
                     let run2 = run_child(&case2, &root2, dir, None, &env);
                     if run2.status != "ok" {
                         failure = Some(Failure { class: "workload-died".into(), step: usize::MAX, msg: format!("second-generation workload on the image of crash point {p1} did not finish: {}", run2.status), aux: json!({"generation": 2, "arena_full_allowed": case.arena_full}) });
